@@ -184,6 +184,30 @@ impl UnitRunner for C06 {
       }
       Err(pn) => { out.nontrivial += 1; out.fail(format!("C06|panic|run|{}", fam_key(&p.family)), case.clone(), panic_msg(pn)); }
     }
+    // Compile histories: more source interpreted by the same interpreter after the first compile(), then compile() again - the second file
+    // must compute the interpreter's *latest* result (or fail), never the result of the first program.
+    if unit % 4 == 0 {
+      for (ci, cont) in ["hq1 := 41 + 1", "hq2 := [7 8 9]", "hq3 := \"later\"", "hq4 := 3 > 2"].iter().enumerate() {
+        if (unit / 4) as usize % 4 != ci { continue; }
+        let Some(t2) = parse_cached(cont) else { continue; };
+        let mut ih = Interpreter::new(10);
+        if !matches!(catch_unwind(AssertUnwindSafe(|| ih.interpret(&tree))), Ok(Ok(_))) { continue; }
+        if !matches!(catch_unwind(AssertUnwindSafe(|| ih.compile())), Ok(Ok(_))) { continue; }
+        let r2 = match catch_unwind(AssertUnwindSafe(|| ih.interpret(&t2))) { Ok(Ok(v)) => canon(&v), _ => continue };
+        out.evaluations += 1;
+        let hcase = format!("{} ;; compile() ;; {} ;; compile()", case, cont);
+        let b2 = match catch_unwind(AssertUnwindSafe(|| ih.compile())) { Ok(Ok(b)) => b, Ok(Err(_)) => { out.count("second_compile_error"); continue; } Err(pn) => { out.fail(format!("C06|panic|second-compile|{}", fam_key(&p.family)), hcase, panic_msg(pn)); continue; } };
+        let Ok(Ok(p2)) = catch_unwind(AssertUnwindSafe(|| ParsedProgram::from_bytes(&b2))) else { out.count("second_compile_load_error"); continue; };
+        for (route, mut intr) in [("fresh", Interpreter::new(11)), ("compiling", ih)] {
+          match catch_unwind(AssertUnwindSafe(|| intr.run_program(&p2))) {
+            Ok(Ok(v)) => { out.nontrivial += 1; let c = canon(&v); if c != r2 { out.fail(format!("C06|different-result|second-compile:{}|{}", route, fam_key(&p.family)), hcase.clone(), format!("interpreter (latest statement): {} ; bytecode of the second compile: {}", r2.short(), c.short())); } else { out.count("second_compile_reproduced"); } }
+            Ok(Err(_)) => out.count("second_compile_run_error"),
+            Err(pn) => out.fail(format!("C06|panic|second-compile-run|{}", fam_key(&p.family)), hcase.clone(), panic_msg(pn)),
+          }
+          break;
+        }
+      }
+    }
     // The same file in interpreters whose function registry already holds the program's functions (a fresh one does not, which is why
     // most typed programs cannot run there): the compiling interpreter itself - what the repository's own tests do - and a third
     // interpreter that has interpreted the same source. Here the decoded constants and the rebuilt functions really execute: the result
